@@ -1127,3 +1127,46 @@ func (d *DatagramInfo) describe() string {
 		return s
 	}
 }
+
+// AdvertisedStreamLimit is the largest flow-control limit the receiver of data sent by `sender` on stream
+// id has put on the wire so far (its transport parameter for that kind of stream, raised by the
+// MAX_STREAM_DATA frames it emitted), and whether its transport parameters are known.
+func (c *ConnTap) AdvertisedStreamLimit(sender Dir, id uint64) (uint64, bool) {
+	c.w.mu.Lock()
+	defer c.w.mu.Unlock()
+	lim, ok := c.initialStreamLimit(sender, id)
+	if !ok {
+		return 0, false
+	}
+	if s := c.Streams[sender][id]; s != nil && s.MaxStreamData > lim {
+		lim = s.MaxStreamData
+	}
+	return lim, true
+}
+
+// AdvertisedConnLimit is the largest connection-level limit the receiver of data sent by `sender` has put
+// on the wire (initial_max_data raised by MAX_DATA frames), and the sum of the highest offsets `sender`
+// has genuinely used on all streams so far.
+func (c *ConnTap) AdvertisedConnLimit(sender Dir) (limit, used uint64, ok bool) {
+	c.w.mu.Lock()
+	defer c.w.mu.Unlock()
+	tp := c.peerTP(sender)
+	if tp == nil {
+		return 0, 0, false
+	}
+	limit = max(tp.Int(TPInitialMaxData, 0), c.MaxData[sender.Other()])
+	for _, sv := range c.Streams[sender] {
+		used += sv.HighWater
+	}
+	return limit, used, true
+}
+
+// StreamHighWater is the highest stream offset `sender` has genuinely sent on stream id.
+func (c *ConnTap) StreamHighWater(sender Dir, id uint64) uint64 {
+	c.w.mu.Lock()
+	defer c.w.mu.Unlock()
+	if s := c.Streams[sender][id]; s != nil {
+		return s.HighWater
+	}
+	return 0
+}
